@@ -234,7 +234,9 @@ impl SubCheck for PlansAndStructures {
         tier.pick(20000, 400000)
     }
     fn strategy(&self, _tier: Tier) -> BoxedStrategy<PlanCase> {
-        (1usize..=6)
+        // mostly short vectors; sometimes long ones with many ties (sorting algorithms switch
+        // strategy with the length)
+        prop_oneof![6 => (1usize..=6).boxed(), 1 => (7usize..=32).boxed(), 2 => (33usize..=96).boxed()]
             .prop_flat_map(|n| (proptest::collection::vec(0u8..4, n), proptest::collection::vec(0..n, 0..7), proptest::collection::vec(0u8..5, n)))
             .prop_map(|(keys, ids, vals)| PlanCase { keys, ids, vals })
             .boxed()
@@ -311,16 +313,17 @@ impl SubCheck for PlansAndStructures {
         let ties = want_sorted.windows(2).any(|w| w[0] == w[1]);
         cov.label_if(non_id, "non_identity_permutation");
         cov.label_if(ties, "ties");
+        cov.label_if(n >= 33 && ties, "long_vector_with_ties");
         if non_id || ties {
             cov.nontrivial(c);
-            if cov.wants_sample() {
+            if cov.wants_sample() && n <= 8 {
                 cov.sample(json!({"keys": c.keys, "sigma": sigma, "ids": c.ids, "values": c.vals, "reindexed_values": re}));
             }
         }
         Ok(())
     }
     fn mandatory(&self) -> Vec<&'static str> {
-        vec!["non_identity_permutation", "ties", "networks_rewritten"]
+        vec!["non_identity_permutation", "ties", "networks_rewritten", "long_vector_with_ties"]
     }
 }
 
